@@ -86,7 +86,7 @@ def make_block(case: dict[str, Any]) -> dict[str, Any]:
     for i, (en, ex, y) in enumerate(case["disposables"]):
         ys = {"none": [], "one": [[("D1", "R1", "BoxInt", "R2")[i % 4], next(uid)]], "list": [["R3", next(uid)], [("D2", "BoxStr")[i % 2], next(uid)]], "empty-list": [],
               "generator": [["R3", next(uid)], [("D2", "BoxStr")[i % 2], next(uid)]], "iter": [[("D1", "R1", "BoxInt", "R2")[i % 4], next(uid)]], "map": [["R3", next(uid)]], "tuple": [["R3", next(uid)], ["D2", next(uid)]]}[y]
-        ds.append({"yield": ys, "enter": en, "exit": ex, "form": y if y in ("list", "empty-list", "generator", "iter", "map", "tuple") else "auto", "falsy": (i + len(case["disposables"])) % 2 == 0})
+        ds.append({"yield": ys, "enter": en, "exit": ex, "form": y if y in ("list", "empty-list", "generator", "iter", "map", "tuple") else "auto", "falsy": (i + len(case["disposables"])) % 2 == 0, "awaitable": (i + len(en) + len(case["disposables"])) % 3 == 1})
     return {"op": "block", "kind": "ascope", "name": "blk", "supply": [["SubD1", next(uid)]], "disposables": ds, "body": [{"op": "probe", "id": 1}], "exit": {"kind": case["body"]}, "catch": True}
 
 
